@@ -128,3 +128,13 @@ claim('C19',
       'Bounds: <= 3 messages, <= 2 entries, two known targets; sequential execution of the stream loop; openconfig path.ToStrings cut. '
       'Trusted: go/ssa, executor, z3.',
       'SSA symbolic execution + SMT (z3), case-split message scripts vs oracle', 'DESIGN.md 6/C19')
+claim('C17',
+      'Real GnmiTypedValueToNativeType / NativeTypeToGnmiTypedValue / PathValuesToGnmiChange (v2) with the real onos-api typed-value '
+      'constructors and accessors: for FULLY SYMBOLIC int64, uint64 and decimal64 digits (precision <= 18), every model width option (absent, '
+      '8, 16, 32, 64), bool, and strings / ascii / bytes up to 3 symbolic bytes (incl. 0x00, 0xff, quote) z3 proves the value returned by a '
+      'PROTO Get and the value placed in the southbound update equal the value set; the JSON leaf built by the real tree code is a string exactly '
+      'for 64-bit integers under RFC 7951.',
+      'math/big.Int is a contract model (sign, 64-bit magnitude; SetBytes/Bytes/Neg/Sign/Int64/Uint64/SetInt64/SetUint64/NewInt) valid for '
+      'magnitudes < 2^64; float/double (big.Float gob encoding) and the decimal TEXT of numbers (strconv/fmt) are outside; leaf-lists not yet '
+      'covered. Trusted: go/ssa, executor, z3.',
+      'SSA symbolic execution + SMT (z3) over 64-bit bit-vectors', 'DESIGN.md 6/C17')
